@@ -180,6 +180,34 @@ class SArr:
         return f"SArr{self.shape}"
 
 
+class IterVal:
+    """a Python iterator (generator expression, iter(x), itertools.count): consumed by next()/for"""
+
+    def __init__(self, items=None, count_from=None, step=1):
+        self.items = list(items) if items is not None else None
+        self.pos = 0
+        self.count = count_from
+        self.step = step
+
+    def next(self):
+        if self.items is None:
+            v = self.count
+            self.count += self.step
+            return True, v
+        if self.pos < len(self.items):
+            v = self.items[self.pos]
+            self.pos += 1
+            return True, v
+        return False, None
+
+    def rest(self):
+        if self.items is None:
+            raise AnalysisError("peval: iteration over an unbounded counter")
+        r = self.items[self.pos:]
+        self.pos = len(self.items)
+        return r
+
+
 class PyExc(Exception):
     """a Python-level exception raised by interpreted code"""
 
@@ -298,7 +326,7 @@ class Interp:
             return g[name]
         mod = self.m.mod(modname)
         found = None
-        for st in self._toplevel(mod.tree.body):
+        for st in self._toplevel(mod.raw_tree.body):
             if isinstance(st, ast.FunctionDef) and st.name == name:
                 found = FuncVal(st, modname)
             elif isinstance(st, ast.ClassDef) and st.name == name:
@@ -316,6 +344,10 @@ class Interp:
                     if (al.asname or al.name.split(".")[0]) == name:
                         if al.name == "numpy":
                             found = self.np
+                        elif al.name == "itertools":
+                            found = Namespace("itertools", {"count": Builtin("itertools.count", lambda start=0, step=1: IterVal(count_from=start, step=step)),
+                                                            "product": Builtin("itertools.product", lambda *a, **k: list(itertools.product(*[self.iterate(x) for x in a], **k))),
+                                                            "chain": Builtin("itertools.chain", lambda *a: [y for x in a for y in self.iterate(x)])})
                         else:
                             found = Opaque(f"module:{al.name}")
             elif isinstance(st, ast.ImportFrom) and st.level == 0:
@@ -763,6 +795,8 @@ class Interp:
             raise AnalysisError(f"peval: unsupported target {type(t).__name__}")
 
     def iterate(self, v, node=None):
+        if isinstance(v, IterVal):
+            return v.rest()
         if isinstance(v, (list, tuple)):
             return list(v)
         if isinstance(v, dict):
@@ -894,6 +928,8 @@ class Interp:
         if isinstance(e, (ast.ListComp, ast.GeneratorExp, ast.SetComp)):
             out = []
             self._comp(e.generators, 0, fr, lambda f2: out.append(self.eval(e.elt, f2)))
+            if isinstance(e, ast.GeneratorExp):
+                return IterVal(out)  # evaluated eagerly (the anchored code has no side effects in generator bodies)
             return out
         if isinstance(e, ast.DictComp):
             out = {}
@@ -1284,6 +1320,18 @@ class Interp:
                     best = v
             return best
 
+        _NODEFAULT = object()
+
+        def _next(it, default=_NODEFAULT):
+            if not isinstance(it, IterVal):
+                raise AnalysisError(f"peval: next() on {it!r}")
+            ok, v = it.next()
+            if ok:
+                return v
+            if default is _NODEFAULT:
+                raise PyExc("StopIteration", "")
+            return default
+
         def _min(*a):
             vals = I.iterate(a[0]) if len(a) == 1 else list(a)
             if all(isinstance(x, (int, float)) and not isinstance(x, bool) for x in vals):
@@ -1324,6 +1372,8 @@ class Interp:
             "min": Builtin("min", _min),
             "max": Builtin("max", _max),
             "abs": Builtin("abs", abs),
+            "next": Builtin("next", _next),
+            "iter": Builtin("iter", lambda x: x if isinstance(x, IterVal) else IterVal(I.iterate(x))),
             "any": Builtin("any", lambda it: any(I.truth(x) for x in I.iterate(it))),
             "all": Builtin("all", lambda it: all(I.truth(x) for x in I.iterate(it))),
             "sorted": Builtin("sorted", lambda it, **k: sorted(I.iterate(it))),
